@@ -21,7 +21,9 @@
 // a later write through another handle).
 // After the LAST step of every sequence (every prefix is a sequence of its own) the whole state is read through five access
 // paths and compared with the model: (1) the handles kept alive across the steps, (2) array.getDimension(i), (3)
-// array.dimensions(), (4) a freshly fetched array handle, (5) after close + reopen ReadOnly.  Read: dimensionCount,
+// array.dimensions(), (4) a freshly fetched array handle, (5) after close + reopen ReadOnly ((2)/(3) take turns in reading
+// every attribute vs. kind and index only, (4) reads every attribute on every other sequence; after a step that threw:
+// (1), (2) and the comparison of (2) before / after the call).  Read: dimensionCount,
 // dimensions().size, getDimension(0) / getDimension(n+1) (none or exception), per descriptor kind, index and every
 // attribute (interval, offset [none == 0], ticks [also ticks(0,n)], labels, label, unit, alias flag, data-frame column
 // index, frame id, the column's name / unit / type), the array's label / unit / extent / data.  In every state every range
@@ -31,8 +33,12 @@
 //   reject   the statement's preconditions: alias on a rank > 1 / non-numeric / already dimensioned / non-SI-unit array, a
 //            non-SI unit written to an aliased array, a data-frame column that does not exist -> must throw, change nothing
 //   illegal  unsorted ticks, non-positive interval: if it throws nothing changes; if it returns the invariants decide
-//   either   empty label / unit string, non-SI unit of a non-alias descriptor, empty tick vector: the statement is silent;
-//            if it throws nothing changes, if it returns the value reads back as given
+//   either   empty label / unit string, non-SI unit of a non-alias descriptor, empty tick vector, a deprecated create with an
+//            id past the end: the statement is silent; if it throws nothing changes, if it returns the value reads back as
+//            given (and the descriptor is number count+1: no gap)
+// Enumeration: per configuration an alphabet (a selection of the catalogue below; "core" letters marked); all sequences up to
+// depth --depth (3) over the whole alphabet plus all sequences up to --depth-core (3 quick, 4 thorough; rank <= 2) over
+// the core letters; letters that are not enabled in the model state (setter without a descriptor of the kind) are skipped.
 // A sequence is not extended past a step that threw or after which something is wrong.  Unsorted data written through the
 // ARRAY of an alias is outside the sortedness clause (the statement cannot hold both); only the mirroring is asserted.
 // Violation signatures: C13|<operation>|<input class>|<assertion>|<deviation>.
@@ -154,7 +160,7 @@ static std::vector<Letter> catalogue() {
             {-1.0, "", "", 0.0, LF | LM, false, "interval negative"},
             {1.0, "time", "ms", 0.0, LF | LM | LR, true, "label and SI unit"},
             {1.0, "", "foo", 0.0, LF | LS | LM, false, "non-SI unit"},
-            {0.1, "time", "", 2.5, LF | LM, true, "offset positive"},
+            {0.1, "time", "", 2.5, LF | LM, false, "offset positive"},
             {0.1, "", "", -2.5, LF | LM | LR, true, "offset negative"},
             {0.0, "time", "ms", 2.5, LT | LM, false, "interval 0 with label, unit and offset"}};
         for (auto &x : s) {
@@ -186,7 +192,7 @@ static std::vector<Letter> catalogue() {
     {
         static const char *nm[] = {"no column", "column 0", "last column", "column index == number of columns", "column by name", "unknown column name", "uninitialised frame"};
         const int lv[] = {LF | LM | LR, ALL, LF | LM, LF | LS | LM | LR, LF | LM, LF | LS | LM, LT | LM};
-        const bool co[] = {true, true, false, true, false, false, false};
+        const bool co[] = {false, true, false, true, false, false, false};
         for (int k = 0; k < 7; k++) { Letter l; l.op = APP_DFR; l.dfm = k; l.name = std::string("appendDataFrameDimension(frame, ") + nm[k] + ")"; l.cls = nm[k]; push(l, lv[k], co[k]); }
     }
     // ---- deprecated create*Dimension(id, ...): n = 0 -> id = count+1, n = 1 -> id = count+2 (would leave a gap if honoured; may be refused)
@@ -251,7 +257,7 @@ static std::vector<Letter> catalogue() {
     { Letter l; l.op = A_LABEL; l.none = true; l.name = "array.label(none)"; l.cls = "label none"; push(l, LF | LA, false); }
     { Letter l; l.op = A_SETDATA; l.tk = T_SORTED; l.name = "array.setData(4 sorted values)"; l.cls = "sorted data"; push(l, LF | LA, true); }
     { Letter l; l.op = A_SETDATA; l.tk = T_UNSORTED; l.name = "array.setData(2 unsorted values)"; l.cls = "unsorted data"; push(l, LF | LA, true); }
-    { Letter l; l.op = A_EXTENT; l.n = 2; l.name = "array.dataExtent({2})"; l.cls = "shrink"; push(l, LF | LA, true); }
+    { Letter l; l.op = A_EXTENT; l.n = 2; l.name = "array.dataExtent({2})"; l.cls = "shrink"; push(l, LF | LA, false); }
     { Letter l; l.op = A_EXTENT; l.n = 5; l.name = "array.dataExtent({5})"; l.cls = "grow"; push(l, LT | LA, false); }
     { Letter l; l.op = A_APPEND; l.name = "array.appendData(2 values)"; l.cls = "append"; push(l, LF | LA, true); }
     { Letter l; l.op = DEL_DIMS; l.name = "deleteDimensions()"; l.cls = "-"; push(l, ALL, true); }
